@@ -94,6 +94,8 @@ def main():
     worst = {"res1_top": 0.0, "res2_top": 0.0}
     topo_types = set()
     for mi_, (name, base) in enumerate(meshes):
+        if ctx.enough():
+            break   # verdict decided: every further violating ladder would be extended to the most expensive orders
         if not ctx.quick and not ctx.worker and mi_ >= 3:
             nrel, nu = 0, 1   # thorough: three relabellings x two functions on the first three meshes, the plain numbering on the other ~20
         for r in range(nrel + 1):
